@@ -244,7 +244,7 @@ def run_check(pid, tier="quick", update_baseline=False, seed=0, verbose=False):
             obligations=n_obl, discharged=n_dis,
             checker_cmd=f"./check {pid} --tier {tier}  (pyvc: ast->VC over {repo_root()} ; z3 {z3.get_version_string()} python API, "
                         f"cvc5 1.0.3 on z3-unknowns{', cvc5 cross-check of every VC' if tier == 'thorough' else ''})",
-            trusted_base=(["pyvc VC generator (guarded by mutation self-test and CPython cross-check, thorough tier)",
+            trusted_base=(["pyvc VC generator (guarded by the per-proof vacuity guard, the axiom consistency probe, and the seeded-change / harmless-refactor self-test of the thorough tier)",
                            "z3 / cvc5", "encoding of Python values: ints exact, floats as reals, lists/tuples one sequence sort, "
                            "no aliasing beyond value semantics, partial correctness"]
                           + [f"assumed contract: {a}" for a in assumed_contracts if not a.startswith("lemma:")]
